@@ -35,14 +35,29 @@ impl Model {
         Self::any_reachable_n(2)
     }
 
+    /// As `any_reachable`, with the Option pattern of vote / committed /
+    /// purged / user data fixed by the caller (all Some or all None): for
+    /// harnesses in which the state is *encoded* (chunk rotation), where a
+    /// symbolic pattern makes the encoder walk all 32 of them.
+    pub(crate) fn any_reachable_shaped(some: bool) -> Model {
+        let mut m = Self::any_reachable_p(2, if some { Some(kani::any()) } else { None });
+        m.vote = if some { Some(kani::any()) } else { None };
+        m.committed = if some { Some(kani::any()) } else { None };
+        m.user_data = if some { Some(kani::any()) } else { None };
+        m
+    }
+
     /// Arbitrary reachable state with at most `nmax` (<= 3) live entries.
     pub(crate) fn any_reachable_n(nmax: usize) -> Model {
-        let purged: Option<Id> = kani::any();
+        Self::any_reachable_p(nmax, kani::any())
+    }
+
+    fn any_reachable_p(nmax: usize, purged: Option<Id>) -> Model {
         let n: usize = kani::any();
         kani::assume(n <= nmax && n <= 3);
         let e0: (Id, P) = (kani::any(), kani::any());
         let e1: (Id, P) = (kani::any(), kani::any());
-        let e2: (Id, P) = if nmax >= 3 { (kani::any(), kani::any()) } else { ((255, 255), P { n: 0, b: 0 }) };
+        let e2: (Id, P) = if nmax >= 3 { (kani::any(), kani::any()) } else { ((255, 255), P::new(0, 0)) };
         // ids stay below 250 so that index+1 never overflows u8 (the u64
         // boundary is C16's subject)
         kani::assume(e0.0 .1 < 250 && e1.0 .1 < 250);
@@ -188,9 +203,9 @@ impl Model {
 /// Put the model state into the store's in-memory state (state machine index,
 /// payload cache, log state). Journal positions are dummies: every live
 /// payload is resident, C01 assumes no eviction.
-pub(crate) fn inject(rl: &mut RaftLog<KTypes>, m: &Model) {
+pub(crate) fn inject<T: Narrow>(rl: &mut RaftLog<T>, m: &Model) {
     let seg = Segment::new(0, 0);
-    let ld = |id: Id| LogData::<KTypes>::new(id, ChunkId(0), seg);
+    let ld = |id: Id| LogData::<T>::new(id, ChunkId(0), seg);
     rl.state_machine.log = BTreeMap::from_sorted3(
         (m.e[0].0 .1 as u64, ld(m.e[0].0)),
         (m.e[1].0 .1 as u64, ld(m.e[1].0)),
@@ -200,13 +215,13 @@ pub(crate) fn inject(rl: &mut RaftLog<KTypes>, m: &Model) {
     {
         let mut c = rl.state_machine.payload_cache.write().unwrap();
         if m.n >= 1 {
-            c.insert(m.e[0].0, m.e[0].1);
+            c.insert(m.e[0].0, T::LogPayload::mk(m.e[0].1.n, m.e[0].1.b));
         }
         if m.n >= 2 {
-            c.insert(m.e[1].0, m.e[1].1);
+            c.insert(m.e[1].0, T::LogPayload::mk(m.e[1].1.n, m.e[1].1.b));
         }
         if m.n >= 3 {
-            c.insert(m.e[2].0, m.e[2].1);
+            c.insert(m.e[2].0, T::LogPayload::mk(m.e[2].1.n, m.e[2].1.b));
         }
     }
     let s = rl.log_state_mut();
@@ -218,7 +233,7 @@ pub(crate) fn inject(rl: &mut RaftLog<KTypes>, m: &Model) {
 }
 
 /// The store's observable in-memory state equals the model.
-pub(crate) fn assert_matches(rl: &RaftLog<KTypes>, m: &Model) {
+pub(crate) fn assert_matches<T: Narrow>(rl: &RaftLog<T>, m: &Model) {
     let s = rl.log_state();
     assert!(s.vote == m.vote, "vote differs from the reference log");
     assert!(s.last == m.last, "last differs from the reference log");
@@ -244,7 +259,7 @@ pub(crate) fn assert_matches(rl: &RaftLog<KTypes>, m: &Model) {
 
 /// `read(from, to)` returns exactly the model's entries in [from, to), in
 /// index order, each with the id and payload originally supplied.
-pub(crate) fn assert_read(rl: &RaftLog<KTypes>, m: &Model, from: u64, to: u64) {
+pub(crate) fn assert_read<T: Narrow>(rl: &RaftLog<T>, m: &Model, from: u64, to: u64) {
     let mut it = rl.read(from, to);
     let mut i = 0;
     while i < 3 {
@@ -254,7 +269,7 @@ pub(crate) fn assert_read(rl: &RaftLog<KTypes>, m: &Model, from: u64, to: u64) {
                 match it.next() {
                     Some(Ok((id, p))) => {
                         assert!(id == m.e[i].0, "read returns a wrong log id");
-                        assert!(p == m.e[i].1, "read returns a wrong payload");
+                        assert!(p.nb() == m.e[i].1.nb(), "read returns a wrong payload");
                     }
                     Some(Err(e)) => {
                         core::mem::forget(e);
@@ -274,4 +289,21 @@ pub(crate) fn assert_read(rl: &RaftLog<KTypes>, m: &Model, from: u64, to: u64) {
         }
     }
     core::mem::forget(it);
+}
+
+/// Every live payload is resident in the cache with the model's content (used
+/// where walking the real read path - cache or closed chunk file - for every
+/// entry is too expensive; the read path has its own harnesses).
+pub(crate) fn assert_cached<T: Narrow>(rl: &RaftLog<T>, m: &Model) {
+    let c = rl.state_machine.payload_cache.read().unwrap();
+    let mut i = 0;
+    while i < 3 {
+        if i < m.n {
+            match c.cache.get(&m.e[i].0) {
+                Some(q) => assert!(q.nb() == m.e[i].1.nb(), "cached payload differs from the reference log"),
+                None => assert!(false, "live payload is not resident"),
+            }
+        }
+        i += 1;
+    }
 }
